@@ -104,15 +104,19 @@ def find_lexicons(
     cur = connect().cursor()
     found = False
     for specifier in lexicon.split():
-        limit = '-1' if '*' in lexicon else '1'
+        # a bare id selects the most recently added lexicon with that id
+        bare_id = ':' not in specifier and '*' not in specifier
         if ':' not in specifier:
             specifier += ':*'
+        order = 'DESC' if bare_id else 'ASC'
+        limit = '1' if bare_id or '*' not in specifier else '-1'
         query = f'''
             SELECT DISTINCT rowid, id, label, language, email, license,
                             version, url, citation, logo
               FROM lexicons
              WHERE id || ":" || version GLOB :specifier
                AND (:language ISNULL OR language = :language)
+             ORDER BY rowid {order}
              LIMIT {limit}
         '''
         params = {'specifier': specifier, 'language': lang}
